@@ -626,3 +626,52 @@ def unit_gamma_resp_length(prop="C06"):
         return u
     unit.__name__ = "gamma_resp_length"
     return unit
+
+
+# ------------------------------------------------------------------------------------------
+# ComplexGammatoneFilterBank.get_impulse_response: exactly `width` samples, every store `res[idx] += h(t)` inside the buffer for every
+# number of aliased periods (the time-aliasing sum of C07's "modulo the buffer"); the envelope values `_h` are numeric (havoc).
+# ------------------------------------------------------------------------------------------
+def unit_gamma_impulse_length(prop="C07"):
+    def unit(tier, known):
+        from contracts.registry import run_contract
+
+        def setup(ex, st):
+            from pyvc.api import SeqVal
+            nf, fi, w = api.sym("num_filts"), api.sym("filt_idx"), api.sym("width")
+            st.assume(z3.And(nf >= 1, fi >= 0, fi < nf, w >= 1))
+            sl, sr = z3.Function("supp_left", I, I), z3.Function("supp_right", I, I)
+            k = z3.Int("sk")
+            st.assume(z3.ForAll([k], sl(k) <= sr(k)))
+            api.mk_obj(st, "self", "ComplexGammatoneFilterBank", {"_supports": SeqVal(nf, lambda j: (sl(Z(j)), sr(Z(j))))})
+            st.env.update(filt_idx=fi, width=w)
+            ex.ctx = dict(w=w)
+
+        def h_h(ex, st, o, args, kwargs, node, ev):
+            if len(args) != 2:
+                raise Outside("_h form")
+            ex.oblige(st, z3.And(Z(args[1]) >= 0, Z(args[1]) < Z(st.fields[("self", "_supports")].n)), f"filter_index_in_range.L{node.lineno - ex.fx.lineno}", "pre", node.lineno)
+            return fresh("h_value", "real")
+
+        c = Contract(
+            target="filters:ComplexGammatoneFilterBank.get_impulse_response", uses=["A-REAL", "A-PYSEM"],
+            consts={"W": SpecFn(lambda ev: ev.ex.ctx["w"]), "np.complex128": Opaque("complex128", "dtype")},
+            handlers={"ComplexGammatoneFilterBank._h": h_h, "self._h": h_h},
+            loops={0: LoopSpec(kind="for", invariant=[("buffer_keeps_its_length", "len(res) == W()")]),
+                   1: LoopSpec(kind="for", invariant=[("buffer_keeps_its_length", "len(res) == W()")])},
+            ensures=[("exactly_width_samples", "len(result) == W()")],
+        )
+
+        def tc(ob):
+            out = []
+            for order in (4, 3, 1):
+                for mc in (False, True):
+                    for r, nf, lo in ((8000.0, 3, 20.0), (16000.0, 10, 0.0)):
+                        sp = dict(bank="gamma", scale={"name": "mel"}, num_filts=nf, low_hz=lo, high_hz=None, rate=r, order=order, max_centered=mc)
+                        for kk in sorted({0, nf - 1}):
+                            out.append({"bank": sp, "filt": kk, "mult": 1, "plus": 0})
+            return out
+        return run_contract(prop, ("filters", "ComplexGammatoneFilterBank.get_impulse_response"), c, [("", setup)], name="gamma_impulse_length",
+                            fname="ComplexGammatoneFilterBank.get_impulse_response", to_case=tc, replay_module="rtc.c07")
+    unit.__name__ = "gamma_impulse_length"
+    return unit
